@@ -79,8 +79,14 @@ def run_case(case):
         outcomes.add(tuple(sorted(after.items())))
         if out[0] == "solvefail":
             # some trees are unsatisfiable for the preset values of their non-random parts
-            # (whether that verdict is right is C02/C08's business)
+            # (whether that verdict is right is C02/C08's business).  No field got a final value, so no
+            # post_randomize may have run; pre_randomize still ran at most once per object
             cnt["failed_calls"] = cnt.get("failed_calls", 0) + 1
+            posts = [p for p, ph, _ in log if ph == "post"]
+            pres = [p for p, ph, _ in log if ph == "pre"]
+            if posts or len(set(pres)) != len(pres):
+                bad("callback_after_failed_call", "tree %r call %s ended with SolveFailure, yet post_randomize ran on %r "
+                    "(pre_randomize on %r)" % (spec, call, posts, pres), {"post": posts, "pre": pres}, "no post_randomize", x.choices)
             continue
         if out[0] != "ok":
             bad("unexpected_exception", "call ended with %r" % (out,), list(out), "returns", x.choices)
